@@ -79,9 +79,11 @@ fn classify(sh: &Shard, hist: &[Op], f: &Failure) -> (String, String) {
     let base = f.class.replace("-after-gc", "");
     let prop = match base.as_str() {
         "uaf" | "gc-panic" | "held-ref-panic" | "held-ref-value" => "C03",
+        // a wrong value is a C01 violation whether or not a garbage collection is part of the history
+        // (C01 quantifies over histories with GC); the signature says whether one is needed
+        "wrong-value" | "panic" => "C01",
         _ if needs_gc => "C03",
         "unpermitted-exec" => "C02",
-        "wrong-value" | "panic" => "C01",
         _ => "MACHINERY",
     };
     let sig = signature(sh, &full, f, &base, needs_gc);
